@@ -161,6 +161,45 @@ def _edit(rng, spec, built, g):
     return c, 'node added'
 
 
+def _copy_laws(g, what):
+    """A copy of any graph - also one that just gained or lost a node or an edge - equals it, hashes like it and is the
+    same design space; so does its pickle."""
+    c = g.copy()
+    if not (c == g and hash(c) == hash(g)):
+        raise Viol('C18/copy-not-equal', f'{what}: its copy is not equal to it / does not hash like it')
+    if not (c.is_same(g) and g.is_same(c) and c.fingerprint() == g.fingerprint()):
+        raise Viol('C18/copy-not-equal', f'{what}: its copy is not recognised as the same design space')
+    p = pickle.loads(pickle.dumps(g))
+    if not (p.is_same(g) and g.is_same(p)):
+        raise Viol('C18/pickle-not-same', f'{what}: restored from pickle it is not recognised as the same design space')
+
+
+def _instance_edits(p, vec_seed, stats):
+    """Decoded instances with parallel connection edges: lose one of the parallel edges (the one with the lowest key),
+    then the copy laws must hold for what is left."""
+    from adsg_core.graph.graph_edges import get_edge_type, EdgeType
+    rng = random.Random(vec_seed + 11)
+    dvs = p.des_vars
+    for _ in range(6):
+        x = [rng.randrange(d.n_opts) if d.is_discrete else rng.uniform(*d.bounds) for d in dvs]
+        try:
+            g, _, _ = p.get_graph(x)
+        except Exception:
+            continue
+        _copy_laws(g, f'instance decoded from {x}')
+        par = {}
+        for u, v, k, d in g.graph.edges(keys=True, data=True):
+            if get_edge_type((u, v, k, d)) == EdgeType.CONNECTS:
+                par.setdefault((u, v), []).append(k)
+        multi = [(uv, ks) for uv, ks in par.items() if len(ks) >= 2]
+        if multi:
+            (u, v), ks = multi[0]
+            e = g.copy()
+            e.graph.remove_edge(u, v, min(ks))
+            stats['probe:parallel_edge_removed'] += 1
+            _copy_laws(e, f'instance decoded from {x} after losing the first of {len(ks)} parallel connection edges')
+
+
 def execute(trace):
     log = []
     stats = collections.Counter()
@@ -205,6 +244,17 @@ def _run(trace, log, stats):
                 raise Viol('C18/edit-still-equal', f'{what}: the edited copy is still equal to (or hashes like) the original')
             if g0 == e:
                 raise Viol('C18/edit-still-equal', f'{what}: the original is still equal to the edited copy')
+            _copy_laws(e, f'graph after "{what}"')
+        # --- instances (parallel connection edges)
+        if spec.get('conn'):
+            try:
+                from adsg_core.optimization.graph_processor import GraphProcessor
+                pr = GraphProcessor(g0)
+                _ = pr.des_vars
+            except Exception:
+                pr = None
+            if pr is not None:
+                _instance_edits(pr, trace['vec_seed'], stats)
         # --- constraint chain: a graph that already has a constraint is copied and only the copy gains another one
         from adsg_core.graph.adsg_basic import ChoiceConstraintType
         from adsg_core.graph.adsg_nodes import SelectionChoiceNode
@@ -298,11 +348,17 @@ def _compare(what, a, b, stats):
 def generate(seed, tier='quick', index=0):
     s = Streams(seed)
     rng = s('gen')
-    spec = gen_dsg.gen_selection_spec(rng, n_incompat_max=rng.choice([0, 0, 2]), p_cycle=0.0, acyclic=True,
-                                      p_shared=rng.choice([0.0, 0.3, 0.7]), max_choices=rng.choice([1, 2, 3, 4]))
+    spec = gen_dsg.gen_tree_spec(rng, n_incompat_max=rng.choice([0, 0, 2]), max_choices=rng.choice([1, 2, 3, 4]))
+    spec = gen_dsg.clean_incompat(spec)
     spec = gen_dsg.add_dv_metrics(rng, spec)
-    if rng.random() < 0.25:
+    if rng.random() < 0.3:
         spec = gen_dsg.add_conn_choice(rng, spec, p_group=0.0, max_side=2)
+        if rng.random() < 0.5:  # favour repeated (parallel) connections
+            cc = spec['conn'][-1]
+            for c in (cc['src'][0], cc['tgt'][0]):
+                c['deg'] = [1, 2]
+                c['rep'] = True
+            cc['exclude'] = []
     if rng.random() < 0.3:
         # constraint-friendly: four further independent choices at the start node, pairwise with equal option counts
         k0 = len(spec['nodes'])
